@@ -291,6 +291,16 @@ class SimSocket(object):
         self.net.sim.seam()
         if self.closed:
             raise OSError(9, "Bad file descriptor (simulated)")
+        # the argument checks of a real datagram socket
+        if isinstance(data, str) or not isinstance(
+                data, (bytes, bytearray, memoryview)):
+            try:
+                data = memoryview(data).tobytes()
+            except TypeError:
+                raise TypeError("a bytes-like object is required, not %r"
+                                % type(data).__name__)
+        if len(data) > 65507:
+            raise OSError(90, "Message too long (simulated)")
         self.sent += 1
         hook = self.net.send_fail_hook
         if hook is not None and hook(self, bytes(data)):
@@ -328,6 +338,12 @@ class SimSocket(object):
         self.net.sim.seam()
         if self.closed:
             raise OSError(9, "Bad file descriptor (simulated)")
+        if isinstance(n, float) or not hasattr(n, "__index__"):
+            raise TypeError("%r object cannot be interpreted as an integer"
+                            % type(n).__name__)
+        n = n.__index__()
+        if n < 0:
+            raise ValueError("negative buffersize in recv")
         if not self.inbox:
             if self.blocking:
                 # rig never does a blocking recv on an empty socket; model it
@@ -381,6 +397,21 @@ class SimSelectModule(object):
         socks = list(rlist)
         if timeout is None:
             timeout = 3600.0
+        else:
+            # the argument checks of the real select()
+            if isinstance(timeout, (str, bytes)) or not isinstance(
+                    timeout, (int, float)) and not hasattr(timeout,
+                                                           "__float__"):
+                raise TypeError("timeout must be a float or None")
+            timeout = float(timeout)
+            if timeout != timeout:
+                raise ValueError("Invalid value NaN (not a number)")
+            if timeout < 0:
+                raise ValueError("timeout must be non-negative")
+        for s_ in socks:
+            if getattr(s_, "closed", False):
+                raise ValueError("file descriptor cannot be a negative "
+                                 "integer (-1)")
 
         def ready():
             return any(s.inbox for s in socks)
@@ -418,12 +449,28 @@ class SimTimeModule(object):
     def sleep(self, d):
         sim = self._net.sim
         sim.seam()
+        if isinstance(d, (str, bytes)) or not hasattr(d, "__float__") \
+                and not hasattr(d, "__index__"):
+            raise TypeError("%r object cannot be interpreted as an integer"
+                            % type(d).__name__)
+        if d < 0:
+            raise ValueError("sleep length must be non-negative")
         sim.trace.ev("sleep", float(d))
         sim.run_until(sim.now + max(0.0, d))
         self._net.world.check_pending()
 
     def monotonic(self):
-        return self.time()
+        # its own epoch, untouched by jumps of the wall clock: a deadline
+        # computed on one clock and compared on the other never works
+        sim = self._net.sim
+        sim.seam()
+        sim.now += sim.TICK
+        return 4242.0 + sim.now
 
-    def clock(self):
-        return self.time()
+    perf_counter = monotonic
+
+    def time_ns(self):
+        return int(self.time() * 1e9)
+
+    def monotonic_ns(self):
+        return int(self.monotonic() * 1e9)
